@@ -8,5 +8,5 @@ CONSTANTS
   Ops = {"ChangeZoom"}
   MaxDepth = 1
   MaxWs = 1000
-INVARIANTS C03_Exact C03_AtTarget C03_Partition C03_FloorBelowGround C09_InThenOut C09_MergeDescendants
+INVARIANTS C03_Exact C03_ListIsUnion C03_AtTarget C03_Partition C03_FloorBelowGround C09_InThenOut C09_MergeDescendants
 CHECK_DEADLOCK FALSE
